@@ -6,6 +6,7 @@ from hypothesis import strategies as st
 from .. import core, mpi
 
 MAXN = 64
+CANARY = -777777
 
 
 def prod(l):
@@ -14,6 +15,9 @@ def prod(l):
         p *= x
     return p
 
+
+# ---------------------------------------------------------------------------------------------
+# Reference (MPI-3.1 chapter 7), integers only
 
 def coords_of(rank, dims):
     """MPI: row-major numbering is always used for the processes of a Cartesian structure."""
@@ -49,13 +53,11 @@ def shift_of(rank, dims, periods, direction, disp, proc_null):
     return res
 
 
-def all_coords(dims):
-    return [list(c) for c in itertools.product(*[range(d) for d in dims])]
-
-
-# ---- what each caller asks.  `full`: every caller asks everything (all ranks, all coordinate vectors, all displacements in
+# ---------------------------------------------------------------------------------------------
+# What each caller asks.  `full`: every caller asks everything (all ranks, all coordinate vectors, all displacements in
 # [-2*dim, 2*dim]); otherwise (grids > 16 nodes in random cases) every caller still asks about itself, its neighbours, the corners
 # and some caller-dependent ranks, so that all ranks are covered by the union of the callers (O(n) output instead of O(n^2)).
+
 def q_ranks(r, m, full):
     if full:
         return list(range(m))
@@ -84,8 +86,8 @@ def q_shifts(r, dims, full):
     return res
 
 
-def is_full(case):
-    return bool(case.get("full")) or prod(case["dims"]) <= 16
+def is_full(grid):
+    return bool(grid.get("full")) or prod(grid["dims"]) <= 16
 
 
 def per_rank(np_, f):
@@ -93,24 +95,37 @@ def per_rank(np_, f):
     return vals[0] if all(v == vals[0] for v in vals) else {"@": vals}
 
 
-def build_prog(case):
-    dims, periods = case["dims"], case["periods"]
-    n = prod(dims)
-    np_ = n + case["extra"]
-    inside = list(range(n))
-    nd = len(dims)
-    slack = case.get("slack", 0)
-    full = is_full(case)
-    wrap = case["wrap"]
-    prog = [{"op": "cart_create", "dims": dims, "periods": periods, "reorder": case.get("reorder", 0), "out": "c"}]
-    idx = {"create": 0}
+def arg_of(prog, i, name, r):
+    v = prog[i][name]
+    return v["@"][r % len(v["@"])] if isinstance(v, dict) and "@" in v else v
 
-    def add(key, op):
-        op["only"] = inside
-        idx[key] = len(prog)
+
+def case_np(case):
+    return max([prod(g["dims"]) for g in case["grids"]] + [1]) + case["extra"]
+
+
+def build_prog(case):
+    """-> prog, idx.  idx[(g, key)] = index in prog of the operation `key` of grid #g; idx["dc", k] of Dims_create query k;
+    idx["owner"][i] = (g, k, lvl) for every operation i that works on the sub-communicator of chain k, level lvl of grid g."""
+    np_ = case_np(case)
+    prog = []
+    idx = {"owner": {}}
+    for k, (nn, part) in enumerate(case["dc"]):
+        idx[("dc", k)] = len(prog)
+        prog.append({"op": "dims_create", "nnodes": nn, "dims": part, "only": [0]})
+    owner = [None]
+    cur = {}
+
+    def add(key, op, everybody=False):
+        if not everybody:
+            op["only"] = cur["inside"]
+        idx[(cur["gi"], key)] = len(prog)
+        if owner[0] is not None:
+            idx["owner"][len(prog)] = owner[0]
         prog.append(op)
 
     def queries(key, comm, qd, qp):
+        slack, full, wrap = cur["slack"], cur["full"], cur["wrap"]
         add(key + "dim", {"op": "cartdim_get", "comm": comm})
         add(key + "get", {"op": "cart_get", "comm": comm, "maxdims": len(qd) + slack})
         if qd:
@@ -119,39 +134,42 @@ def build_prog(case):
             add(key + "rank", {"op": "cart_rank", "comm": comm, "coords": per_rank(np_, lambda r: q_coords(r, qd, qp, wrap, full))})
             add(key + "shift", {"op": "cart_shift", "comm": comm, "shifts": per_rank(np_, lambda r: q_shifts(r, qd, full))})
 
-    queries("", "c", dims, periods)
-    for k, (nn, part) in enumerate(case["dc"]):
-        idx["dc%d" % k] = len(prog)
-        prog.append({"op": "dims_create", "nnodes": nn, "dims": part, "only": [0]})
-    for k, sub in enumerate(case["subs"]):
-        comm = "c"
-        sdims, sper = dims, periods
-        for lvl, mask in enumerate(sub):
-            mask = mask[:len(sdims)]
-            name = "s%d_%d" % (k, lvl)
-            idx[("level", len(prog))] = (k, lvl)
-            key = "sub%d_%d" % (k, lvl)
-            add(key, {"op": "cart_sub", "comm": comm, "remain": mask, "out": name})
-            add(key + "grp", {"op": "comm_group", "comm": name, "out": "g" + name})
-            kd = [d for d, m in zip(sdims, mask) if m]
-            kp = [p for p, m in zip(sper, mask) if m]
-            queries(key, name, kd, kp)
-            comm, sdims, sper = name, kd, kp
+    for gi, g in enumerate(case["grids"]):
+        dims, periods = g["dims"], g["periods"]
+        cur.update(gi=gi, inside=list(range(prod(dims))), slack=g.get("slack", 0), full=is_full(g), wrap=g["wrap"])
+        cname = "c%d" % gi
+        add("create", {"op": "cart_create", "dims": dims, "periods": periods, "reorder": g.get("reorder", 0), "out": cname}, everybody=True)
+        queries("", cname, dims, periods)
+    # the sub-grids come after the main queries of ALL grids (a crash on a sub-communicator then hides as little as possible)
+    for gi, g in enumerate(case["grids"]):
+        dims, periods = g["dims"], g["periods"]
+        cur.update(gi=gi, inside=list(range(prod(dims))), slack=g.get("slack", 0), full=is_full(g), wrap=g["wrap"])
+        cname = "c%d" % gi
+        for k, sub in enumerate(g["subs"]):
+            comm = cname
+            sdims, sper = dims, periods
+            for lvl, mask in enumerate(sub):
+                mask = mask[:len(sdims)]
+                name = "s%d_%d_%d" % (gi, k, lvl)
+                key = "sub%d_%d" % (k, lvl)
+                add(key, {"op": "cart_sub", "comm": comm, "remain": mask, "out": name})
+                owner[0] = (gi, k, lvl)
+                add(key + "grp", {"op": "comm_group", "comm": name, "out": "g" + name})
+                kd = [d for d, m in zip(sdims, mask) if m]
+                kp = [p for p, m in zip(sper, mask) if m]
+                queries(key, name, kd, kp)
+                owner[0] = None
+                comm, sdims, sper = name, kd, kp
     return prog, idx
 
 
-def arg_of(prog, i, name, r):
-    v = prog[i][name]
-    return v["@"][r % len(v["@"])] if isinstance(v, dict) else v
-
-
-def sub_ranks(case, me, k):
-    """reference: for sub chain #k and the process of rank `me` in the main grid, [(rank before, rank after)] per level"""
-    dims, periods = case["dims"], case["periods"]
+def sub_ranks(grid, me, k):
+    """reference: for sub chain #k and the process of rank `me` in the grid, [(rank before, rank after)] per level"""
+    dims, periods = grid["dims"], grid["periods"]
     c = coords_of(me, dims)
     res = []
     rank = me
-    for mask in case["subs"][k]:
+    for mask in grid["subs"][k]:
         mask = mask[:len(dims)]
         kept = [i for i, m in enumerate(mask) if m]
         dims, periods, c = [dims[i] for i in kept], [periods[i] for i in kept], [c[i] for i in kept]
@@ -161,14 +179,15 @@ def sub_ranks(case, me, k):
     return res
 
 
-def valid(case):
-    dims = case["dims"]
-    return (len(dims) == len(case["periods"]) <= 4 and all(d >= 1 for d in dims) and prod(dims) <= MAXN
-            and len(case["wrap"]) >= len(dims))
+def valid_grid(g):
+    dims = g["dims"]
+    return (len(dims) == len(g["periods"]) <= 4 and all(d >= 1 for d in dims) and prod(dims) <= MAXN
+            and len(g["wrap"]) >= len(dims))
 
 
+# ---------------------------------------------------------------------------------------------
 @st.composite
-def cases(draw):
+def grids(draw):
     nd = draw(st.sampled_from([0, 1, 1, 2, 2, 2, 3, 3, 3, 4, 4]))
     dims = []
     budget = MAXN
@@ -184,56 +203,63 @@ def cases(draw):
         if draw(st.integers(0, 2)) == 0:
             sub.append([draw(st.integers(0, 1)) for _ in range(sum(m1))])
         subs.append(sub)
-    dc = []
-    for _ in range(draw(st.integers(0, 3))):
-        nn = draw(st.integers(1, MAXN))
-        k = draw(st.integers(1, 4))
-        part = []
-        for _ in range(k):
-            kind = draw(st.integers(0, 3))
-            if kind <= 1:
-                part.append(0)
-            elif kind == 2:
-                divs = [x for x in range(1, nn + 1) if nn % x == 0]
-                part.append(draw(st.sampled_from(divs)))
-            else:
-                part.append(draw(st.integers(1, 9)))
-        dc.append([nn, part])
-    return {"dims": dims, "periods": periods, "extra": draw(st.integers(0, 2)), "reorder": draw(st.integers(0, 1)),
-            "slack": draw(st.integers(0, 2)), "wrap": [draw(st.integers(-2, 2)) for _ in range(4)], "subs": subs, "dc": dc,
-            "full": draw(st.integers(0, 9)) == 0}
+    return {"dims": dims, "periods": periods, "reorder": draw(st.integers(0, 1)), "slack": draw(st.integers(0, 2)),
+            "wrap": [draw(st.integers(-2, 2)) for _ in range(4)], "subs": subs, "full": draw(st.integers(0, 9)) == 0}
+
+
+@st.composite
+def dims_create_queries(draw):
+    nn = draw(st.integers(1, MAXN))
+    part = []
+    for _ in range(draw(st.integers(1, 4))):
+        kind = draw(st.integers(0, 3))
+        if kind <= 1:
+            part.append(0)
+        elif kind == 2:
+            part.append(draw(st.sampled_from([x for x in range(1, nn + 1) if nn % x == 0])))
+        else:
+            part.append(draw(st.integers(1, 9)))
+    return [nn, part]
+
+
+@st.composite
+def cases(draw):
+    return {"grids": draw(st.lists(grids(), min_size=1, max_size=4)), "extra": draw(st.integers(0, 2)),
+            "dc": draw(st.lists(dims_create_queries(), max_size=6))}
 
 
 class C33(core.Prop):
     id = "C33"
     drivers = ["mpi_interp"]
-    sizes = {"quick": 1500, "thorough": 40000}
+    sizes = {"quick": 500, "thorough": 12000}
     max_workers = 4
     technique = ("property-based testing (Hypothesis) + exhaustive enumeration of small grids: integer-arithmetic reference of MPI-3.1 "
                  "chapter 7 (row-major rank<->coordinates, periodic wrap, shift neighbours, Cart_sub partition) compared with the "
                  "answers of every rank of an SMPI program")
-    rule = ("A case = one Cartesian grid (0..4 dimensions, <= 64 nodes, every periodicity pattern, world of nnodes+0..2 ranks, reorder 0/1) "
-            "created by MPI_Cart_create in a simulated SMPI run; EVERY rank of the grid then calls Cartdim_get, Cart_get, "
-            "Cart_coords for all ranks, Cart_rank for all in-range coordinate vectors plus out-of-range ones on periodic dimensions, "
-            "Cart_shift for all directions and all displacements in [-2*dim, 2*dim]; 0..3 Cart_sub keep-masks (optionally a second "
-            "Cart_sub on the result) followed by the same calls on the sub-communicator and its member list; rank 0 runs 0..3 "
+    rule = ("A case = one simulated SMPI run (world of max(nnodes)+0..2 ranks) that creates 1..4 Cartesian grids (each 0..4 dimensions, "
+            "<= 64 nodes, any periodicity pattern, reorder 0/1) with MPI_Cart_create; EVERY rank of each grid calls Cartdim_get, Cart_get, "
+            "Cart_coords (all ranks), Cart_rank (all in-range coordinate vectors plus out-of-range ones on periodic dimensions), Cart_shift "
+            "(all directions, all displacements in [-2*dim, 2*dim]; on grids > 16 nodes a caller-dependent subset whose union over the "
+            "callers covers everything, or everything with probability 1/10); 0..3 Cart_sub keep-masks per grid (optionally a second "
+            "Cart_sub on the result) followed by the same calls on the sub-communicator and its member list; rank 0 runs 0..6 "
             "MPI_Dims_create(nnodes<=64, partial dims) queries.  Fixed cases enumerate every grid of <= 8 nodes (quick) / <= 24 nodes "
-            "(thorough) with every periodicity pattern and every keep-mask.  Oracle: integer arithmetic. Non-trivial: >= 2 dimensions "
-            "of size >= 2 with mixed periodicity. Distinct = distinct canonical JSON.")
+            "(thorough) with every periodicity pattern and every keep-mask, and Dims_create for every nnodes <= 64.  Oracle: integer "
+            "arithmetic. Non-trivial: some grid has >= 2 dimensions of size >= 2 with mixed periodicity. Distinct = distinct canonical JSON.")
     assumptions = ["coordinates out of range on a non-periodic dimension, direction >= ndims, maxdims < ndims and dims that do not fit the "
                    "communicator are erroneous in MPI: not generated",
                    "Dims_create: only product == nnodes, given entries kept, entries positive, and an error code when nnodes is not a multiple of "
-                   "the given entries; balance/ordering of the free entries is NOT asserted (the statement does not require it)",
+                   "the product of the given entries; balance/ordering of the free entries is NOT asserted (the statement does not require it)",
                    "processes of a Cart_sub sub-grid keep their coordinates of the kept dimensions (what every MPI implementation does and "
                    "what the statement's 'keeps the selected dimensions' says); reported under its own signature",
-                   "smpi/errors-are-fatal:no so that error codes are returned instead of aborting"]
+                   "smpi/errors-are-fatal:no so that error codes are returned instead of aborting; MPI_Topo_test is not implemented by SMPI "
+                   "(explicit 'not yet implemented' abort) and is not called"]
 
     def strategy(self, tier):
         return cases()
 
     def fixed_cases(self, tier):
         lim = 8 if tier == "quick" else 24
-        res = []
+        gl = []
 
         def shapes(nd, budget):
             if nd == 0:
@@ -248,8 +274,12 @@ class C33(core.Prop):
                     continue       # degenerate shapes are covered by the lower-dimensional ones
                 for per in itertools.product([0, 1], repeat=nd):
                     masks = [list(m) for m in itertools.product([0, 1], repeat=nd)]
-                    res.append({"dims": dims, "periods": list(per), "extra": 1 if prod(dims) % 2 else 0, "reorder": 0, "slack": 0,
-                                "wrap": [1, -1, 2, -2], "subs": [[m] for m in masks], "dc": [], "full": True})
+                    gl.append({"dims": dims, "periods": list(per), "reorder": 0, "slack": 0, "wrap": [1, -1, 2, -2],
+                               "subs": [[m] for m in masks], "full": True})
+        res = []
+        gl.sort(key=lambda g: prod(g["dims"]))
+        for i in range(0, len(gl), 6):       # 6 grids per simulated run
+            res.append({"grids": gl[i:i + 6], "extra": (i // 6) % 2, "dc": []})
         # Dims_create: every nnodes <= 64 with all-free dims of every length, and one fixed entry
         dcs = []
         for nn in range(1, MAXN + 1):
@@ -259,67 +289,108 @@ class C33(core.Prop):
                 if nn % d == 0:
                     dcs.append([nn, [0, d, 0]])
                     dcs.append([nn, [d, 0]])
-        for i in range(0, len(dcs), 40):
-            res.append({"dims": [1], "periods": [0], "extra": 0, "reorder": 0, "slack": 0, "wrap": [0, 0, 0, 0], "subs": [],
-                        "dc": dcs[i:i + 40]})
+        for i in range(0, len(dcs), 100):
+            res.append({"grids": [], "extra": 0, "dc": dcs[i:i + 100]})
         return res
 
     # -------------------------------------------------------------------------------------------
     def check(self, case):
         oc = core.Outcome()
-        if not valid(case):
+        if not all(valid_grid(g) for g in case["grids"]):
             oc.invalid = True
             return oc
         K, E = mpi.consts()
-        dims, periods = case["dims"], case["periods"]
-        nd = len(dims)
-        n = prod(dims)
-        np_ = n + case["extra"]
+        np_ = case_np(case)
         prog, idx = build_prog(case)
         self.prog = prog
-        res = mpi.run({"np": np_, "prog": prog}, cpu=30)
-        oc.labels.append("ndims=%d" % nd)
-        big = [d for d in dims if d >= 2]
-        mixed = len(set(p for d, p in zip(dims, periods) if d >= 2)) == 2
-        if mixed:
-            oc.labels.append("mixed-periodicity")
-        if case["subs"]:
-            oc.labels.append("has-sub")
-        if any(len(s) > 1 for s in case["subs"]):
-            oc.labels.append("has-sub-of-sub")
-        if case["extra"]:
-            oc.labels.append("world-larger-than-grid")
-        if n >= 32:
-            oc.labels.append("nodes>=32")
+        res = mpi.run({"np": np_, "prog": prog}, cpu=60)
+        oc.info = {"np": np_}
+        oc.labels.append("grids=%d" % len(case["grids"]))
+        for g in case["grids"]:
+            dims, periods = g["dims"], g["periods"]
+            oc.labels.append("ndims=%d" % len(dims))
+            mixed = len(set(p for d, p in zip(dims, periods) if d >= 2)) == 2
+            if mixed:
+                oc.labels.append("mixed-periodicity")
+                oc.nontrivial = True
+            if g["subs"]:
+                oc.labels.append("has-sub")
+            if any(len(s) > 1 for s in g["subs"]):
+                oc.labels.append("has-sub-of-sub")
+            if prod(dims) < np_:
+                oc.labels.append("world-larger-than-grid")
+            if prod(dims) >= 32:
+                oc.labels.append("nodes>=32")
+            if g.get("reorder"):
+                oc.labels.append("reorder=1")
         if case["dc"]:
             oc.labels.append("has-dims-create")
-        oc.nontrivial = len(big) >= 2 and mixed
-        oc.info = {"np": np_}
 
         fail = res.failure()
         if fail:
             sig, msg = fail
-            if res.crash is not None and res.crash["i"] >= idx.get("sub0_0", 1 << 30):
-                # a crash in a call on a sub-communicator: which process (did Cart_sub change its rank?)
-                start = max(i for (tag, i) in [k for k in idx if isinstance(k, tuple)] if i <= res.crash["i"])
-                k, lvl = idx[("level", start)]
-                chain = sub_ranks(case, (res.get(res.crash["r"], 0) or {}).get("rank", res.crash["r"]), k)
-                changed = chain[lvl][0] != chain[lvl][1] if lvl < len(chain) else False
-                sig = "cart-sub:rank-changed:crash" if changed else "cart-sub:crash"
-                msg += " [on the communicator of Cart_sub #%d level %d; rank before/after Cart_sub: %s]" % (k, lvl, chain[lvl] if lvl < len(chain) else "?")
-                oc.labels.append("crashed")
             if sig == "bad-case":
                 raise RuntimeError(msg)
-            oc.bad(sig, msg + "  [dims=%s periods=%s]" % (dims, periods))
+            if res.crash is not None and res.crash["i"] in idx["owner"]:
+                # a crash in a call on a sub-communicator: did Cart_sub change the rank of that process?
+                gi, k, lvl = idx["owner"][res.crash["i"]]
+                g = case["grids"][gi]
+                c0 = res.get(res.crash["r"], idx[(gi, "create")]) or {}
+                chain = sub_ranks(g, c0.get("rank", res.crash["r"]), k)
+                sig = "cart-sub:rank-changed:crash" if chain[lvl][0] != chain[lvl][1] else "cart-sub:crash"
+                msg += " [grid dims=%s periods=%s, Cart_sub chain %s level %d; rank before/after that Cart_sub: %s]" % (
+                    g["dims"], g["periods"], g["subs"][k], lvl, chain[lvl])
+                oc.labels.append("crashed-on-sub-communicator")
+            oc.bad(sig, msg)
             return oc
 
+        self.check_dims_create(oc, case, res, idx)
+        for gi, g in enumerate(case["grids"]):
+            self.check_grid(oc, K, case, res, idx, gi, g, np_)
+            if oc.violations:
+                break
+        return oc
+
+    # -------------------------------------------------------------------------------------------
+    def check_dims_create(self, oc, case, res, idx):
+        for k, (nn, part) in enumerate(case["dc"]):
+            d = res.get(0, idx[("dc", k)])
+            if d is None:
+                continue
+            given = prod([x for x in part if x > 0])
+            out = d["dims"][:len(part)]
+            call = "MPI_Dims_create(%d, %d, %s)" % (nn, len(part), part)
+            feasible = nn % given == 0 and (0 in part or given == nn)
+            if d["dims"][len(part)] != CANARY:
+                oc.bad("dims-create:overrun", "%s wrote past the array" % call)
+            if not feasible:
+                oc.labels.append("dims-create-infeasible")
+                if d["rc"] == 0:
+                    each = all(nn % x == 0 for x in part if x > 0)
+                    oc.bad("dims-create:no-error:each-entry-divides" if each else "dims-create:no-error",
+                           "%s returned MPI_SUCCESS with %s although %d is not a multiple of the product of the given entries" % (call, out, nn))
+                continue
+            oc.labels.append("dims-create-feasible")
+            if d["rc"] != 0:
+                oc.bad("dims-create:error", "%s returned error %d" % (call, d["rc"]))
+                continue
+            if any(x <= 0 for x in out) or prod(out) != nn:
+                oc.bad("dims-create:product", "%s -> %s: product is not %d" % (call, out, nn))
+            if any(p > 0 and o != p for p, o in zip(part, out)):
+                oc.bad("dims-create:given-entry-changed", "%s -> %s: a non-zero entry was modified" % (call, out))
+
+    # -------------------------------------------------------------------------------------------
+    def check_grid(self, oc, K, case, res, idx, gi, g, np_):
+        dims, periods = g["dims"], g["periods"]
+        n = prod(dims)
+
         def rec(r, key):
-            return res.get(r, idx[key]) if key in idx else None
+            return res.get(r, idx[(gi, key)]) if (gi, key) in idx else None
 
         # ---- creation
         cart_rank = {}
         for r in range(np_):
-            c = res.get(r, 0)
+            c = rec(r, "create")
             if c is None:
                 continue
             if c["rc"] != 0:
@@ -327,27 +398,28 @@ class C33(core.Prop):
                 continue
             if r >= n:
                 if not c["null"]:
-                    oc.bad("cart-create:extra-rank-not-null", "world rank %d >= %d nodes got a communicator" % (r, n))
+                    oc.bad("cart-create:extra-rank-not-null", "dims=%s: world rank %d >= %d nodes got a communicator" % (dims, r, n))
                 continue
             if c["null"]:
-                oc.bad("cart-create:null", "world rank %d < %d nodes got MPI_COMM_NULL" % (r, n))
+                oc.bad("cart-create:null", "dims=%s: world rank %d < %d nodes got MPI_COMM_NULL" % (dims, r, n))
                 continue
             if c["size"] != n:
-                oc.bad("cart-create:size", "rank %d: size of the Cartesian communicator is %d, expected %d" % (r, c["size"], n))
-            if not case.get("reorder", 0) and c["rank"] != r:
-                oc.bad("cart-create:rank-changed", "reorder=false but world rank %d became rank %d" % (r, c["rank"]))
+                oc.bad("cart-create:size", "dims=%s rank %d: size of the Cartesian communicator is %d, expected %d" % (dims, r, c["size"], n))
+            if not g.get("reorder", 0) and c["rank"] != r:
+                oc.bad("cart-create:rank-changed", "dims=%s: reorder=false but world rank %d became rank %d" % (dims, r, c["rank"]))
             cart_rank[r] = c["rank"]
-        if sorted(cart_rank.values()) != list(range(len(cart_rank))):
-            oc.bad("cart-create:ranks-not-a-permutation", "ranks in the Cartesian communicator: %s" % cart_rank)
-            return oc
-        world_of = {v: k for k, v in cart_rank.items()}
+        if oc.violations:
+            return
+        if sorted(cart_rank.values()) != list(range(n)):
+            oc.bad("cart-create:ranks-not-a-permutation", "dims=%s: ranks in the Cartesian communicator: %s" % (dims, cart_rank))
+            return
 
         for r, me in sorted(cart_rank.items()):
-            self.check_comm(oc, K, res, rec, r, me, dims, periods, "", "cart", case, False)
+            self.check_comm(oc, K, rec, r, me, dims, periods, "", "cart", False)
             if oc.violations:
-                return oc
+                return
             # ---- sub-grids
-            for k, sub in enumerate(case["subs"]):
+            for k, sub in enumerate(g["subs"]):
                 sdims, sper = dims, periods
                 prev_rank = me
                 P = sorted(cart_rank)                                       # world ranks of the current communicator
@@ -367,7 +439,7 @@ class C33(core.Prop):
                     P2 = [w for w in P if all(C[w][i] == C[r][i] for i in dropped)]
                     C2 = {w: [C[w][i] for i in kept] for w in P2}
                     if s["rc"] != 0:
-                        oc.bad("cart-sub:error", "rank %d: %s returned %d" % (r, what, s["rc"]))
+                        oc.bad("cart-sub:error", "world rank %d: %s returned %d" % (r, what, s["rc"]))
                         break
                     if s["null"]:
                         if not kd:
@@ -379,49 +451,23 @@ class C33(core.Prop):
                     if s["size"] != prod(kd):
                         oc.bad("cart-sub:size", "world rank %d: %s has %d processes, expected %d" % (r, what, s["size"], prod(kd)))
                         break
-                    g = rec(r, key + "grp")
-                    if g is not None and g["rc"] == 0 and sorted(g["members"]) != P2:
+                    gr = rec(r, key + "grp")
+                    if gr is not None and gr["rc"] == 0 and sorted(gr["members"]) != P2:
                         oc.bad("cart-sub:members", "world rank %d: %s groups world ranks %s, expected %s (same coordinates on the "
-                               "dropped dimensions)" % (r, what, sorted(g["members"]), P2))
+                               "dropped dimensions)" % (r, what, sorted(gr["members"]), P2))
                         break
                     exp_rank = rank_of(C2[r], kd, kp) if kd else 0
                     if s["rank"] != exp_rank:
                         oc.bad("cart-sub:coords-not-kept", "world rank %d (coords %s): rank %d in %s, expected %d = row-major rank of "
                                "the kept coordinates %s" % (r, C[r], s["rank"], what, exp_rank, C2[r]))
                         break
-                    self.check_comm(oc, K, res, rec, r, s["rank"], kd, kp, key, what, case, s["rank"] != prev_rank)
-                    prev_rank = s["rank"]
+                    self.check_comm(oc, K, rec, r, s["rank"], kd, kp, key, what, s["rank"] != prev_rank)
                     if oc.violations:
-                        return oc
+                        return
+                    prev_rank = s["rank"]
                     P, C, sdims, sper = P2, C2, kd, kp
-        # ---- Dims_create
-        for k, (nn, part) in enumerate(case["dc"]):
-            d = res.get(0, idx["dc%d" % k])
-            if d is None:
-                continue
-            given = prod([x for x in part if x > 0])
-            out = d["dims"][:len(part)]
-            call = "MPI_Dims_create(%d, %d, %s)" % (nn, len(part), part)
-            feasible = nn % given == 0 and (0 in part or given == nn)
-            if d["dims"][len(part)] != -777777:
-                oc.bad("dims-create:overrun", "%s wrote past the array" % call)
-            if not feasible:
-                oc.labels.append("dims-create-infeasible")
-                if d["rc"] == 0:
-                    each = all(nn % x == 0 for x in part if x > 0)
-                    oc.bad("dims-create:no-error:each-entry-divides" if each else "dims-create:no-error", "%s returned MPI_SUCCESS with %s although %d is not a multiple of the given entries" % (call, out, nn))
-                continue
-            oc.labels.append("dims-create-feasible")
-            if d["rc"] != 0:
-                oc.bad("dims-create:error", "%s returned error %d" % (call, d["rc"]))
-                continue
-            if any(x <= 0 for x in out) or prod(out) != nn:
-                oc.bad("dims-create:product", "%s -> %s: product is not %d" % (call, out, nn))
-            if any(p > 0 and o != p for p, o in zip(part, out)):
-                oc.bad("dims-create:given-entry-changed", "%s -> %s: a non-zero entry was modified" % (call, out))
-        return oc
 
-    def check_comm(self, oc, K, res, rec, r, me, dims, periods, key, what, case, changed):
+    def check_comm(self, oc, K, rec, r, me, dims, periods, key, what, changed):
         """Checks the answers of world rank r (rank `me` in the communicator) on a Cartesian communicator of shape dims/periods.
         key = '' for the main grid or 'sub<k>_<lvl>'."""
         nd = len(dims)
@@ -431,9 +477,6 @@ class C33(core.Prop):
         d = rec(r, key + "dim")
         if d is not None and (d["rc"] != 0 or d["ndims"] != nd):
             oc.bad(pre + "ndims", "%s: MPI_Cartdim_get -> rc=%d ndims=%d, expected %d" % (who, d["rc"], d["ndims"], nd))
-        t = rec(r, key + "test")
-        if t is not None and (t["rc"] != 0 or t["status"] != K.CART):
-            oc.bad(pre + "topo-test", "%s: MPI_Topo_test -> rc=%d status=%d, expected MPI_CART" % (who, t["rc"], t["status"]))
         g = rec(r, key + "get")
         mine = coords_of(me, dims)
         if g is not None:
@@ -446,9 +489,10 @@ class C33(core.Prop):
                     oc.bad(pre + "get-periods", "%s: MPI_Cart_get periods=%s, expected %s" % (who, g["periods"][:nd], periods))
                 elif g["coords"][:nd] != mine:
                     oc.bad(pre + "get-coords", "%s: MPI_Cart_get coords=%s, expected %s" % (who, g["coords"][:nd], mine))
+                if g["dims"][-1] != CANARY or g["periods"][-1] != CANARY or g["coords"][-1] != CANARY:
+                    oc.bad(pre + "get-overrun", "%s: MPI_Cart_get(maxdims=%d) wrote past maxdims entries" % (who, len(g["dims"]) - 1))
         if oc.violations or nd == 0:
             return
-        n = prod(dims)
         c = rec(r, key + "coords")
         if c is not None:
             for q, (rc, co) in zip(arg_of(self.prog, c["i"], "ranks", r), c["res"]):
@@ -456,17 +500,17 @@ class C33(core.Prop):
                 if rc != 0 or co[:nd] != exp:
                     oc.bad(pre + "coords", "%s: MPI_Cart_coords(%d) -> rc=%d %s, expected %s" % (who, q, rc, co[:nd], exp))
                     break
+                if co[-1] != CANARY:
+                    oc.bad(pre + "coords-overrun", "%s: MPI_Cart_coords(maxdims=%d) wrote past maxdims entries" % (who, len(co) - 1))
+                    break
         k = rec(r, key + "rank")
         if k is not None:
-            qs = arg_of(self.prog, k["i"], "coords", r)
-            for co, (rc, rk) in zip(qs, k["res"]):
+            for co, (rc, rk) in zip(arg_of(self.prog, k["i"], "coords", r), k["res"]):
                 exp = rank_of(co, dims, periods)
                 if rc != 0 or rk != exp:
                     oc.bad(pre + ("rank-wrap" if any(x < 0 or x >= dd for x, dd in zip(co, dims)) else "rank"),
                            "%s: MPI_Cart_rank(%s) -> rc=%d %d, expected %d" % (who, co, rc, rk, exp))
                     break
-                if coords_of(rk, dims) != [x % dd for x, dd in zip(co, dims)]:
-                    oc.bad(pre + "not-inverse", "%s: Cart_coords(Cart_rank(%s)) differs" % (who, co))
         s = rec(r, key + "shift")
         if s is not None:
             for (direction, disp), (rc, src, dst) in zip(arg_of(self.prog, s["i"], "shifts", r), s["res"]):
